@@ -14,7 +14,7 @@ Definition to_node (o : onode) : node :=
   {| ntype := otype o; nunw := ounw o; nvar := ovar o; ncyc := ocyc o; nfor := otype o |}.
 
 (* full equality of what is observable of a node: TypeNode fields including the cyclic flag *)
-Definition node_fulleqb (a b : node) : bool := node_eqb a b && Bool.eqb (ncyc a) (ncyc b).
+Definition node_fulleqb (a b : node) : bool := node_eqb a b.
 
 Fixpoint remove_first (f : node -> bool) (l : list node) : option (list node) :=
   match l with
